@@ -18,7 +18,7 @@ import Mathlib.Tactic.LinearCombination
   Carlson kernels are.  The periodic parts `delta*` have period `π` for *every* `X(sn, cn, dn)`; hence the angle
   interfaces satisfy `X(φ + π) = X(φ) + 2X()` across all the branches of the period handling.
 * `Ed`: a turn adds `4E`.  `Einv`: shifting the argument by `2E` shifts the result by `π`; when the Newton loop ends, the
-  last iterate satisfies `|E(φ) − x| ≤ tolJAC·Δ(φ)`; `deltaEinv` has period `π`.
+  last iterate satisfies `|E(φ) − x| ≤ tolJAC·min(1, |result|)·Δ(φ)`; `deltaEinv` has period `π`.
 -/
 namespace GeoVerif.Proofs.Jacobi
 open GeoVerif GeoVerif.Elliptic Real
@@ -486,20 +486,27 @@ theorem einvLoop_residual (e : Par ℝ) (x : ℝ) (n : ℕ) (φ0 r : ℝ) (h : e
     ∃ φ : ℝ,
       let dn := delta e (sin φ) (cos φ)
       let err := (inc e .E (sin φ) (cos φ) dn - x) / dn
-      r = φ - err ∧ |err| ≤ tolJAC ∧ (dn ≠ 0 → |inc e .E (sin φ) (cos φ) dn - x| ≤ tolJAC * |dn|) ∧
+      r = φ - err ∧ |err| ≤ tolJAC * min 1 |r| ∧ |err| ≤ tolJAC ∧
+      (dn ≠ 0 → |inc e .E (sin φ) (cos φ) dn - x| ≤ tolJAC * min 1 |r| * |dn|) ∧
       (dn ≠ 0 → r = φ → inc e .E (sin φ) (cos φ) dn = x) := by
+  have ht : (0 : ℝ) ≤ tolJAC := by unfold tolJAC; simp only [sqrt_real]; exact Real.sqrt_nonneg _
   induction n generalizing φ0 with
   | zero => simp [einvLoop] at h
   | succ n ih =>
     simp only [einvLoop, sin_real, cos_real, abs_real, ltb_real, Bool.not_eq_true', decide_eq_false_iff_not,
-      not_lt] at h
+      not_lt, lit_real, Nat.cast_one] at h
     split at h
     · rename_i hexit
       simp only [Option.some.injEq] at h
-      refine ⟨φ0, h.symm, hexit, ?_, ?_⟩
+      have hexit' : |(inc e .E (sin φ0) (cos φ0) (delta e (sin φ0) (cos φ0)) - x) / delta e (sin φ0) (cos φ0)|
+          ≤ tolJAC * min 1 |r| := by rw [← h]; exact hexit
+      refine ⟨φ0, h.symm, hexit', ?_, ?_, ?_⟩
+      · calc _ ≤ tolJAC * min 1 |r| := hexit'
+          _ ≤ tolJAC * 1 := mul_le_mul_of_nonneg_left (min_le_left _ _) ht
+          _ = tolJAC := mul_one _
       · intro hd
-        rw [abs_div] at hexit
-        rwa [div_le_iff₀ (abs_pos.mpr hd)] at hexit
+        rw [abs_div] at hexit'
+        rwa [div_le_iff₀ (abs_pos.mpr hd)] at hexit'
       · intro hd hr
         rw [← h] at hr
         have : (inc e .E (sin φ0) (cos φ0) (delta e (sin φ0) (cos φ0)) - x) / delta e (sin φ0) (cos φ0) = 0 := by
